@@ -18,25 +18,32 @@ SrcSetup(T, s) == IF s \in {"nullable", "defaulted"} THEN <<VarSetup(NT(T, TRUE)
 Probe(kind, decls, setup, stmts, writes, ok, note) ==
     [kind |-> kind, decls |-> ClassDecls \o decls, setup |-> setup, stmts |-> stmts, writes |-> writes,
      expect |-> Verdict(ok), note |-> note]
-Note(T, tq, s) == [T |-> T, target_nullable |-> tq, source |-> s]
-OK(T, tq, s) == SubN(NT(T, tq), SrcType(T, s))
-Grid == {<<T, tq, s>> : T \in NTys, tq \in BOOLEAN, s \in Sources}
+\* the target slot has base type U: the source's own type T or a PROPER SUPERTYPE of it (Int -> Float, B -> A, D -> B, A): nullability
+\* must be checked also when the classes differ
+Supers == [Int |-> {"Float"}, Str |-> {}, Bool |-> {}, Float |-> {}, A |-> {}, B |-> {"A"}, D |-> {"B", "A"}]
+NTysAll == NTys \cup {"B", "D"}
+Note4(T, tq, s, U) == [T |-> T, target_nullable |-> tq, source |-> s, target |-> U]
+OK4(T, tq, s, U) == SubN(NT(U, tq), SrcType(T, s))
+Grid == {<<T, tq, s, T>> : T \in NTys, tq \in BOOLEAN, s \in Sources}
+        \cup UNION {{<<T, tq, s, U>> : tq \in BOOLEAN, s \in Sources, U \in Supers[T]} : T \in {"Int", "B", "D"}}
+Note(T, tq, s) == Note4(T, tq, s, T)
+OK(T, tq, s) == OK4(T, tq, s, T)
 
-InitProbes   == { Probe("null-init", <<>>, SrcSetup(g[1], g[3]), <<Def("r", TRUE, TyStr(NT(g[1], g[2])), SrcE(g[1], g[3]))>>, FALSE,
-                        OK(g[1], g[2], g[3]), Note(g[1], g[2], g[3])) : g \in Grid }
-AssignProbes == { Probe("null-assign", <<>>, SrcSetup(g[1], g[3]) \o <<Def("r", TRUE, TyStr(NT(g[1], g[2])), Lit(g[1]))>>,
-                        <<Assign("r", SrcE(g[1], g[3]))>>, TRUE, OK(g[1], g[2], g[3]), Note(g[1], g[2], g[3])) : g \in Grid }
-FieldProbes  == { Probe("null-field", <<Class("K", <<>>, <<>>, <<Def("fld", TRUE, TyStr(NT(g[1], g[2])), Lit(g[1]))>>, <<>>)>>,
+InitProbes   == { Probe("null-init", <<>>, SrcSetup(g[1], g[3]), <<Def("r", TRUE, TyStr(NT(g[4], g[2])), SrcE(g[1], g[3]))>>, FALSE,
+                        OK4(g[1], g[2], g[3], g[4]), Note4(g[1], g[2], g[3], g[4])) : g \in Grid }
+AssignProbes == { Probe("null-assign", <<>>, SrcSetup(g[1], g[3]) \o <<Def("r", TRUE, TyStr(NT(g[4], g[2])), Lit(g[4]))>>,
+                        <<Assign("r", SrcE(g[1], g[3]))>>, TRUE, OK4(g[1], g[2], g[3], g[4]), Note4(g[1], g[2], g[3], g[4])) : g \in Grid }
+FieldProbes  == { Probe("null-field", <<Class("K", <<>>, <<>>, <<Def("fld", TRUE, TyStr(NT(g[4], g[2])), Lit(g[4]))>>, <<>>)>>,
                         SrcSetup(g[1], g[3]) \o <<Def("k", TRUE, "", New("K", <<>>))>>,
-                        <<FAssign(Var("k"), "fld", SrcE(g[1], g[3]))>>, TRUE, OK(g[1], g[2], g[3]), Note(g[1], g[2], g[3])) : g \in Grid }
-ArgProbes    == { Probe("null-arg", <<Fun("f", <<Param("p", TyStr(NT(g[1], g[2])), Absent)>>, "Int", <<>>, <<Expr(IntL(7))>>)>>,
-                        SrcSetup(g[1], g[3]), <<Expr(Call("f", <<SrcE(g[1], g[3])>>))>>, FALSE, OK(g[1], g[2], g[3]), Note(g[1], g[2], g[3])) : g \in Grid }
-             \cup { Probe("null-ctor-arg", <<Class("K", <<CArg("p", TRUE, TRUE, TyStr(NT(g[1], g[2])), Absent)>>, <<>>, <<>>, <<>>)>>,
-                        SrcSetup(g[1], g[3]), <<Expr(New("K", <<SrcE(g[1], g[3])>>))>>, FALSE, OK(g[1], g[2], g[3]), Note(g[1], g[2], g[3])) : g \in Grid }
+                        <<FAssign(Var("k"), "fld", SrcE(g[1], g[3]))>>, TRUE, OK4(g[1], g[2], g[3], g[4]), Note4(g[1], g[2], g[3], g[4])) : g \in Grid }
+ArgProbes    == { Probe("null-arg", <<Fun("f", <<Param("p", TyStr(NT(g[4], g[2])), Absent)>>, "Int", <<>>, <<Expr(IntL(7))>>)>>,
+                        SrcSetup(g[1], g[3]), <<Expr(Call("f", <<SrcE(g[1], g[3])>>))>>, FALSE, OK4(g[1], g[2], g[3], g[4]), Note4(g[1], g[2], g[3], g[4])) : g \in Grid }
+             \cup { Probe("null-ctor-arg", <<Class("K", <<CArg("p", TRUE, TRUE, TyStr(NT(g[4], g[2])), Absent)>>, <<>>, <<>>, <<>>)>>,
+                        SrcSetup(g[1], g[3]), <<Expr(New("K", <<SrcE(g[1], g[3])>>))>>, FALSE, OK4(g[1], g[2], g[3], g[4]), Note4(g[1], g[2], g[3], g[4])) : g \in Grid }
 \* the source must be visible inside the function: parameters of type T? / T
-ReturnProbes == { Probe("null-return", <<Fun("k", <<Param(VarName(NT(g[1], TRUE)), TyStr(NT(g[1], TRUE)), Absent)>>, TyStr(NT(g[1], g[2])), <<>>,
+ReturnProbes == { Probe("null-return", <<Fun("k", <<Param(VarName(NT(g[1], TRUE)), TyStr(NT(g[1], TRUE)), Absent)>>, TyStr(NT(g[4], g[2])), <<>>,
                                           <<IF shape = "explicit" THEN Ret(SrcE(g[1], g[3])) ELSE Expr(SrcE(g[1], g[3]))>>)>>,
-                        <<>>, <<PrintS(StrL("x"))>>, FALSE, OK(g[1], g[2], g[3]), Note(g[1], g[2], g[3]) @@ [shape |-> shape])
+                        <<>>, <<PrintS(StrL("x"))>>, FALSE, OK4(g[1], g[2], g[3], g[4]), Note4(g[1], g[2], g[3], g[4]) @@ [shape |-> shape])
                   : g \in Grid, shape \in {"implicit", "explicit"} }
 \* operand of an operator / receiver of a method / field read of T: only a non-null value may be used
 UseE(T, e) == CASE T = "Int" -> Bin("+", e, IntL(1)) [] T = "Float" -> Bin("+", e, FloatL("1.5")) [] T = "Str" -> Bin("+", e, StrL("t"))
